@@ -393,6 +393,11 @@ func (l *PartitionLog) uploadFlush(ctx context.Context, artifact *SegmentArtifac
 	})
 	if err := g.Wait(); err != nil {
 		l.mu.Lock()
+		// The drained batches are in no durable segment. Put them back in front of
+		// the write buffer so that the next flush uploads them again; a producer
+		// that was waiting for this flush must not find an empty buffer and
+		// acknowledge records that were dropped.
+		l.buffer.Requeue(l.flushingBatches)
 		l.flushing = false
 		l.flushingBatches = nil
 		l.flushCond.Broadcast()
